@@ -11,15 +11,19 @@ Record hcase := {
   hc_wu : bool;              (* task.wait_until instead of @state_trigger *)
   hc_cfg : hcfg;
   hc_init : bool;            (* truth of the expression when the trigger is defined *)
+  hc_tmo : option Z;         (* task.wait_until(timeout=) ; only with hc_wu *)
   hc_hist : history;
   hc_obs : list run;         (* observed runs: virtual time rounded to ms (given in us), argument id *)
   hc_clean : bool            (* nothing logged at ERROR level, harness bookkeeping consistent *)
 }.
 
 Definition model_runs (dv : deviations) (c : hcase) : list run :=
-  (if hc_legacy c then (if hc_wu c then wul_runs else legacy_runs)
-   else (if hc_wu c then wud_runs else dm_runs)) dv (hc_cfg c) (hc_init c) (hc_hist c).
-Definition spec_of (c : hcase) : list run := spec_runs (hc_wu c) (hc_cfg c) (hc_init c) (hc_hist c).
+  if hc_wu c then
+    (if hc_legacy c then wul_runs_t else wud_runs_t) dv (hc_cfg c) (hc_tmo c) (hc_init c) (hc_hist c)
+  else (if hc_legacy c then legacy_runs else dm_runs) dv (hc_cfg c) (hc_init c) (hc_hist c).
+Definition spec_of (c : hcase) : list run :=
+  if hc_wu c then spec_runs_t (hc_cfg c) (hc_tmo c) (hc_init c) (hc_hist c)
+  else spec_runs false (hc_cfg c) (hc_init c) (hc_hist c).
 
 (* run times are compared at millisecond resolution *)
 Definition run_close (a b : run) : bool := (Z.abs (fst a - fst b) <? 1000) && N.eqb (snd a) (snd b).
@@ -31,7 +35,8 @@ Definition hcase_model_ok (dv : deviations) (c : hcase) : bool :=
   hc_clean c && runs_close (model_runs dv c) (hc_obs c).
 
 Definition hcase_in_scope (c : hcase) : bool :=
-  sorted_times (hc_hist c) && no_ties (hc_cfg c) (hc_hist c) && any_ok (hc_cfg c) (hc_hist c).
+  sorted_times (hc_hist c) && no_ties_t (hc_cfg c) (if hc_wu c then hc_tmo c else None) (hc_hist c)
+  && any_ok (hc_cfg c) (hc_hist c).
 
 Definition hcase_spec_ok (c : hcase) : bool :=
   negb (hcase_in_scope c) || runs_close (spec_of c) (hc_obs c).
